@@ -82,6 +82,7 @@ struct Op {
 struct TaskPlan {
     uint64_t arena_seed = 0;
     int parent = -1; // -1: created by the simulator before the pass starts
+    int fe_round = 0; // the thread's floating-point rounding mode (caller state, per thread): 0 nearest, 1 upward, 2 downward, 3 toward zero
     bool edge_end_used = false, edge_start_used = false; // generation only: a buffer already sits at that arena edge
     std::vector<Op> ops;
 };
@@ -123,6 +124,7 @@ struct OpResult {
     uint32_t nalloc = 0;  // allocation requests made by the library inside the op
     uint32_t nfailed = 0; // of which failed by injection
     uint32_t outstanding = 0; // library allocations made in this op and still live at its return
+    uint8_t once_allocs = 0;    // allocation requests made inside a one-time initialiser during this call
     uint8_t n_shared_heap = 0;  // how many of the conflict points are accesses to a library heap block that outlives calls
     uint8_t n_edge = 0;        // solo pass: events at which the call touched a machine word it shares with a neighbouring
     uint32_t edge_ev[24] = {0}; // task's memory (or memory beyond its own range): the places where a preemption matters
